@@ -121,6 +121,7 @@ def c04(ctx):
     gen_parse(ctx, "mutants", "C02", 0, (150, 1) if quick else (7, 1))
     gen_parse(ctx, "mutants", "C01", 0, (600, 4000000) if quick else (11, 100000))
     gen_parse(ctx, "mutants", "C09n", 0, (12, 1) if quick else (1, 1))
+    gen_parse(ctx, "mutants", "C08", 0, (700, 1) if quick else (40, 1))      # slices incl. step 0, negative and huge numbers
     C.trace_api(ctx, {"compile-accepted", "compile-rejected"}, n=800 if quick else 8000)
     ctx.exhaustive = False
 
